@@ -141,7 +141,7 @@ let () =
   register "C12S" (fun i o -> match i, o with
     | [br; end_; chunks; reqs], [outs] ->
       let cs = chunks_of_tok chunks in
-      let fails = (end_ = "fail") in
+      let fails = (end_ = "fail" || end_ = "uex") in   (* uex: the source ends with io.ErrUnexpectedEOF - a failure like any other *)
       let outs = List.map (fun t -> match String.split_on_char ':' t with
         | [d; s] -> (bytes_of_hex d, status_of s) | _ -> failwith "out") (split_list outs) in
       let reqs = List.map (fun q -> if q = "b" then RqByte
